@@ -91,6 +91,8 @@ def conflict(a, b):
         return False
     if ra:
         return a.get("prio", 3) == b.get("prio", 3)
+    if a.get("prio", 3) != b.get("prio", 3):
+        return False        # simple controls with different priorities (API only): the higher one decides
     # two simple controls: a conflict only when they can fire at the same instant (for any start_clocktime of the space)
     for start in (0, 3 * H, 22 * H):
         if set(fire_instants(a, start, DUR)) & set(fire_instants(b, start, DUR)):
@@ -135,6 +137,21 @@ def cases(tier):
             s = base(H, 360, clock)
             s["controls"] = [dict(a, name="c0"), dict(b, name="c1")]
             out.append(s)
+    # simple controls that fire at the SAME instant on the same target with opposite values and different priorities (the
+    # API lets a simple control carry a priority; [CONTROLS] cannot): on the grid, off the grid, sim-time and clock-time mixed
+    for t1 in (H, H + 18 * 60, H + 21 * 60 + 40, 2 * H):
+        for (pa_, pb_) in ((5, 1), (1, 5), (4, 2), (0, 3)):
+            for kinds in (("time", "time"), ("time", "clock"), ("clock", "clock")):
+                for clock in (0, 3 * H):
+                    for order in (0, 1):
+                        s = base(H, 360, clock)
+                        a = dict(ctl(kinds[0], "=", t1 if kinds[0] == "time" else (t1 + clock) % DAY, "CLOSED"), prio=pa_)
+                        b = dict(ctl(kinds[1], "=", t1 if kinds[1] == "time" else (t1 + clock) % DAY, "OPEN"), prio=pb_)
+                        cs = [a, b] if order == 0 else [b, a]
+                        if tier == "quick" and (order == 1 and kinds != ("time", "time")):
+                            continue
+                        s["controls"] = [dict(c, name="c%d" % i) for i, c in enumerate(cs)]
+                        out.append(s)
     # several targets: a simple control on pa (closing it, or redundantly opening it), a second simple control on pb at the same
     # instant / later in the same hydraulic step / on the next grid point, with or without a rule on pc that fires at every
     # rule step (ELSE branch) or whose condition is true.  pd is never targeted, so nothing is ever isolated.
@@ -292,9 +309,8 @@ def timeline(s, link="pa"):
                     acts.append((c.get("prio", 3), i, c["else_value"]))
             for _, _, v in sorted(acts):        # lowest priority first: the highest priority determines the outcome
                 new = v
-        for c in simple:
-            if tau in fire_instants(c, start, dur):
-                new = c["value"]
+        for c in sorted((c for c in simple if tau in fire_instants(c, start, dur)), key=lambda c: c.get("prio", 3)):
+            new = c["value"]        # lowest priority first: the highest priority determines the outcome
         if new != status:
             changes.append((tau, new))
             status = new
@@ -333,7 +349,7 @@ def run_case(s):
     changes = {l: timeline(s, l) for l in targets}
     all_changes = sorted(set(t for l in targets for t, _ in changes[l]))
     # ---- reference vs EPANET (validates the reference; EPANET visits its own set of instants)
-    api_only = any("repeat" in c for c in s["controls"])
+    api_only = any("repeat" in c or (not c.get("rule") and "prio" in c) for c in s["controls"])
     if api_only:
         counts["api_only_no_epanet_syntax"] = 1
         en, en_times = [], list(all_changes)
